@@ -301,17 +301,20 @@ class State:
         self.pc = []
         self.ghost = {}
         self.trace = []      # human-readable path decisions
+        self.hinted = False  # True once the state went through a loop head abstracted by its invariant: what is refuted from here on depends on a proof hint
 
     def fork(self):
         s = State.__new__(State)
         s.env = dict(self.env); s.heap = dict(self.heap); s.pc = list(self.pc)
         s.ghost = dict(self.ghost); s.trace = list(self.trace)
+        s.hinted = getattr(self, 'hinted', False)
         return s
 
     @staticmethod
     def merge(c, s1, s2):
         """join of two states after a conditional (c holds in s1, not c in s2)"""
         m = s1.fork()
+        m.hinted = getattr(s1, 'hinted', False) or getattr(s2, 'hinted', False)
         k = 0
         while k < len(s1.pc) and k < len(s2.pc) and s1.pc[k] is s2.pc[k]: k += 1
         m.pc = list(s1.pc[:k])
@@ -546,6 +549,8 @@ def resolve_alias(cls, field):
     return field
 
 
+AUTO_CONTAINERS = set()    # auto-declared attributes initialised with an empty container: opaque, mutator calls on them are not modelled
+AUTO_FIELDS = set()        # (class, field) declared on the fly by the executor (attributes of self no specification mentions)
 FIELD_INVARIANTS = {}      # (owner class, field) -> (fact builder, justification): a field written only by constructors with checked arguments
 
 
@@ -587,12 +592,16 @@ def new_object(st, cls):
 _src_cache = {}
 
 
-def load_function(relpath, qualname):
+def source_tree(relpath):
     path = os.path.join(REPO, relpath)
     if path not in _src_cache:
         with open(path, encoding='utf-8') as f: src = f.read()
         _src_cache[path] = (src, ast.parse(src))
-    src, tree = _src_cache[path]
+    return _src_cache[path]
+
+
+def load_function(relpath, qualname):
+    src, tree = source_tree(relpath)
     node = tree
     want_setter = qualname.endswith('@setter')
     qualname = qualname.replace('@setter', '')
